@@ -36,6 +36,11 @@ type Case struct {
 	// io.EOF; some sources answer a read with nothing now and then)
 	DataWithEOF bool `json:"data_with_eof,omitempty"`
 	ZeroEvery   int  `json:"zero_every,omitempty"`
+	// Chain > 0: the input reaches autometa as the stream an EARLIER autometa.Load returned (for a stream that holds
+	// First followed by Data), after all of First has been read from it: the second image of a stream, the payload
+	// behind a header.  The reference loaders see Data alone.
+	Chain bool   `json:"chain,omitempty"`
+	First []byte `json:"first,omitempty"`
 }
 
 func check(c Case) (kind, what string, nt bool) {
@@ -61,7 +66,18 @@ func check(c Case) (kind, what string, nt bool) {
 	}
 	s := &src.Source{Data: c.Data, FaultAt: -1, Sizes: c.Sizes, DataWithEOF: c.DataWithEOF, ZeroEvery: c.ZeroEvery}
 	var a ld.Outcome
-	if c.Std != "" {
+	if c.Chain {
+		whole := append(append([]byte(nil), c.First...), c.Data...)
+		first := ld.Run("auto", &src.Source{Data: whole, FaultAt: -1, Sizes: c.Sizes, DataWithEOF: c.DataWithEOF})
+		if first.Panic != "" || first.Stream == nil {
+			return "panic", "first load of a chain: " + first.Panic + " / nil stream", true
+		}
+		head := make([]byte, len(c.First))
+		if n, err := io.ReadFull(first.Stream, head); err != nil || !bytes.Equal(head[:n], c.First) {
+			return "stream", fmt.Sprintf("the stream of the first load of a chain does not start with the input (read %d of %d, err %v)", n, len(c.First), err), true
+		}
+		a = ld.Run("auto", first.Stream)
+	} else if c.Std != "" {
 		r, _, cleanup := src.Std(c.Std, c.Prefix, c.Data, filepath.Join(ev.Root(), "out", "run", "C19"))
 		defer cleanup()
 		a = ld.Run("auto", r)
@@ -224,7 +240,7 @@ func TestC19(t *testing.T) {
 		fmt.Println("REPLAY case passed")
 		return
 	}
-	ev.Rule("inputs: rapid-generated valid files of the three formats (C05/C06 grammar), rapid structure-aware mutations and truncations of those and of the repository/built/hostile seeds, polyglots (signature of one format + body of another, RIFF/WEBP header wrapping another file, PNG signature + 4 GiB chunk so the PNG loader drains the source, JPEG SOI+COM followed by another file, concatenations), random bytes, empty input; three 4 MiB-header files loaded over and over until > 1 GiB (thorough > 13 GiB, more than 2^32 bytes per loader) has passed through autometa in the process; the auto loader additionally under short-read schedules, with the last bytes arriving together with EOF, and with reads that return nothing now and then. Oracle: the first of pngmeta/jpegmeta/webpmeta.Load that succeeds on the complete input (differential, incl. ICC error text), else (nil, error); the stream always replays the input; when autometa reads from a standard-library reader type, the matching specific loader is also given that reader type and must agree with itself on the bare input. non-trivial = distinct input on which an earlier candidate consumed > 8 bytes before failing, or which a non-first loader accepts")
+	ev.Rule("inputs: rapid-generated valid files of the three formats (C05/C06 grammar), rapid structure-aware mutations and truncations of those and of the repository/built/hostile seeds, polyglots (signature of one format + body of another, RIFF/WEBP header wrapping another file, PNG signature + 4 GiB chunk so the PNG loader drains the source, JPEG SOI+COM followed by another file, concatenations), random bytes, empty input; a sixth of the generated inputs reach autometa as the rest of the stream an earlier autometa.Load returned; three 4 MiB-header files loaded over and over until > 1 GiB (thorough > 13 GiB, more than 2^32 bytes per loader) has passed through autometa in the process; the auto loader additionally under short-read schedules, with the last bytes arriving together with EOF, and with reads that return nothing now and then. Oracle: the first of pngmeta/jpegmeta/webpmeta.Load that succeeds on the complete input (differential, incl. ICC error text), else (nil, error); the stream always replays the input; when autometa reads from a standard-library reader type, the matching specific loader is also given that reader type and must agree with itself on the bare input. non-trivial = distinct input on which an earlier candidate consumed > 8 bytes before failing, or which a non-first loader accepts")
 	ev.Assume("both sides are prism code on the same bytes; independence of the specific loaders comes from C05/C06")
 	all := append(seeds.All(), seeds.Hostile()...)
 	bad := map[string]bool{}
@@ -329,6 +345,20 @@ func TestC19(t *testing.T) {
 		default:
 			c.Data = rapid.SliceOfN(rapid.Byte(), 0, 64).Draw(rt, "random")
 			c.Desc = "random bytes"
+		}
+		if class != "random" && len(c.Data) < 200000 && rapid.IntRange(0, 5).Draw(rt, "chained") == 0 {
+			// preceded in its stream by another file, or by a few bytes of some header
+			c.Chain = true
+			if rapid.Bool().Draw(rt, "chainfile") {
+				sd := all[rapid.IntRange(0, len(all)-1).Draw(rt, "chainseed")]
+				c.First = sd.Data
+				if len(c.First) > 20000 {
+					c.First = c.First[:20000]
+				}
+			} else {
+				c.First = rapid.SliceOfN(rapid.Byte(), 1, 40).Draw(rt, "chainhead")
+			}
+			c.Desc += fmt.Sprintf(" (second in a stream, after %d other bytes)", len(c.First))
 		}
 		if rapid.Bool().Draw(rt, "short") {
 			if rapid.IntRange(0, 3).Draw(rt, "shortsizes") > 0 {
